@@ -15,7 +15,7 @@ STEP_LIMIT = 300_000
 BOUNDS = {
     'quick': 'function terms add/subtract/multiply/divide over (symbolic i64, 3), (2.5, 4), (7, 2), (0.1, 0.2), (0.5, 0.25), (symbolic f64 in [-1e6, 1e6], 0.25) and join(a, b), join([a, b], "!") paired with: '
              'unbound variable, variable bound to the value / to another value, equal constant, different constant of the same type (a solver variable: any other i64 / any other f64, however close), atom, complex term, list, `$_`, '
-             'a second function term of equal value and one of different value; unify(F, T) and unify(T, F) through Unifiable::unify and through the `unify` built-in goal; '
+             'a second function term of equal value and one of different value; the unbound partner has a lower id than variables that are already bound; the arguments are also given through chains of two bound variables; unify(F, T) and unify(T, F) through Unifiable::unify and through the `unify` built-in goal; '
              'oracle: the real unify on (value of F, T with its own function evaluated)',
     'thorough': 'same plus 3-argument functions and partners reached through chains of 2 variables',
 }
@@ -37,6 +37,9 @@ def cases(tier, seed):
         for p in PARTNERS:
             for via in ('method', 'goal'):
                 out.append({'id': '%s#%d vs %s via %s' % (name, fi, p, via), 'f': fi, 'partner': p, 'via': via})
+        # the function's arguments reached through a chain of two bound variables
+        for p in ('unbound', 'equal', 'different', 'bound-equal'):
+            out.append({'id': '%s#%d (arguments through variable chains) vs %s via method' % (name, fi, p), 'f': fi, 'partner': p, 'via': 'method', 'argchain': 2})
     return out
 
 
@@ -57,15 +60,18 @@ def run(drv, case):
     m = drv.m
     name, argspec = FUNCS[case['f']]
     env = B.Env(drv)
+    x = env.var('$X')                      # id 1: stays unbound (unless the partner binds it) while higher ids get bound
+    hi = env.var('$Hi'); env.bind(hi, ('atom', 'kept'))
     args = [mk(m, a, 'f%d' % i) for i, a in enumerate(argspec)]
     if name in ('add', 'subtract') and isinstance(args[0][1], Sym):
         # keep clear of overflow (outside the claim)
         m.assume(Sym(z3.And(args[0][1].e > -(1 << 62), args[0][1].e < (1 << 62)), 'bool'))
+    if case.get('argchain'):
+        args = [env.via_chain(a, 2) if a[0] in ('int', 'float', 'atom') else a for a in args]
     F = ('func', name, tuple(args))
     tF = drv.term(F)
     val = drv.evalf(name, [drv.term(a) for a in args], env.ss)
     p = case['partner']
-    x = env.var('$X')
     tags = ['join'] if name == 'join' else []
     def different(v):
         if v[0] == 'int':
